@@ -78,7 +78,7 @@ def section_fns():
     scommon = dict(self_struct='struct nv_section', types=[(FIT, 'struct nv_fit'), (r'^(%s)$' % FUTVEC, 'struct nv_section')] + TYPES, uf_float=False)
     block = Fn('section_block', SRC, 'block', flt='section_t::block', calls=FUT_CALLS, members=FUT_MEMBERS, **scommon)
     sdtor = Fn('section_dtor', SRC, '~section_t', flt='section_t::~section_t', kinds=('CXXDestructorDecl',),
-               members=[(r'^block\|nano::parallel::section_t', 'nv_call_block({self}, {0})!')], **scommon)
+               calls=FUT_CALLS, members=[(r'^block\|nano::parallel::section_t', 'nv_call_block({self}, {0})!')] + FUT_MEMBERS, **scommon)
     return block, sdtor
 
 
